@@ -6,7 +6,7 @@
 EXTENDS TLSGate, Json
 VARIABLES cfg, cl, pos
 Configs == {[rule |-> FALSE, pass |-> FALSE], [rule |-> TRUE, pass |-> FALSE], [rule |-> TRUE, pass |-> TRUE]}
-Possible(cred, fault) == fault = "none" \/ (cred \in {"nocert", "ok"} /\ fault \in {"abort", "stall"}) \/ (cred = "plain" /\ fault = "garbage")
+Possible(cred, fault) == fault = "none" \/ (cred \in {"nocert", "ok"} /\ fault \in {"abort", "stall"}) \/ (cred = "plain" /\ fault \in {"garbage", "flood"})
 Init == /\ cfg \in Configs /\ pos \in {"before", "between", "after"}
         /\ cl \in {[cred |-> c, fault |-> f] : c \in Creds, f \in Faults}
         /\ Possible(cl.cred, cl.fault)
